@@ -22,6 +22,15 @@ static const unsigned int RTR_SEND_TIMEOUT = 60;
 void __attribute__((weak))
 rtr_change_socket_state(struct rtr_socket *rtr_socket, const enum rtr_socket_state new_state);
 int rtr_sync(struct rtr_socket *rtr_socket);
+
+/**
+ * @brief Serialises the changes socket threads make to the tables they share.
+ * An atomic reload copies the records of all other sockets into a shadow table and swaps it in
+ * once it is complete; a change another socket makes to the live tables in between would be
+ * lost. Held while a response is applied and while a socket's records are purged.
+ */
+void rtr_table_update_lock(void);
+void rtr_table_update_unlock(void);
 int rtr_wait_for_sync(struct rtr_socket *rtr_socket);
 int rtr_send_serial_query(struct rtr_socket *rtr_socket);
 int rtr_send_reset_query(struct rtr_socket *rtr_socket);
